@@ -365,6 +365,7 @@ fn edit_record(c: &EditCase, scratch: &str, idx: usize) -> Option<Value> {
     "T": p.nodes.iter().map(|n| json!({"s": n.s, "e": n.e, "p": n.p, "ch": n.ch,
       "tx": match c.src.get(n.s..n.e) { Some(",") => 1, Some("]") => 2, _ => 0 }})).collect::<Vec<_>>(),
     "exp": match c.exp { Some((a, b)) => json!([a, b]), None => json!([9, 9]) },
+    "raw": raw.iter().map(|(p, d, _)| json!({"pos": p, "del": d, "ins": []})).collect::<Vec<_>>(),
     "lib": lib_edits, "lib_by_ref": lib_by_ref, "cli": cli_json, "after": bytes(&after), "after_utf8": std::str::from_utf8(&after).is_ok(),
     "applied": applied, "codes": [js.code, up.code],
     "text": c.src.chars().take(200).collect::<String>(),
@@ -423,6 +424,10 @@ fn edit_cases(vectors: Option<&str>, corpus: &str, rng: &mut Rng, thorough: bool
     ("foo(a, ;\nfoo(b)\n", json!({"pattern": "foo($A)"})),
     ("\n\n  foo(a);\n  foo(b);\n\n", json!({"pattern": "foo($A)"})),
     ("   foo(é)", json!({"pattern": "foo($A)"})),
+    // matches that touch (one ends where the next one starts): none is nested in or overlaps another one
+    ("{}{}{}\n", json!({"kind": "statement_block"})),
+    ("let t = `${a}${b}${c}`;\n", json!({"kind": "template_substitution"})),
+    ("a;b;;c;\n", json!({"kind": "expression_statement"})),
   ];
   for (i, (src, rule)) in fixed.iter().enumerate() {
     for (j, fix) in ["bar($A)", "$A", ""].iter().enumerate() {
